@@ -120,3 +120,10 @@ def run_case(case, drv):
     res.nontrivial = n >= 2 and nf >= 1 and nf < len(B.feasible)
     res.features += [f"n:{n}", f"feasible_set:{'empty' if nf == 0 else 'nonempty'}"]
     return res
+
+
+EXHAUSTIVE_SCOPE = FU.EXHAUSTIVE_FORMS_SCOPE
+
+
+def gen_exhaustive():
+    yield from FU.gen_exhaustive_forms(("arc", "path", "seq"))
